@@ -69,6 +69,20 @@ pub use crate::{
 // line of an HTTP request.
 const CRLF: &str = "\r\n";
 
+// Rust's integer parsers tolerate a leading plus sign, which the grammars of
+// the numeric fields of HTTP (`1*DIGIT`, `1*HEXDIG`) do not.  Parsing a lone
+// sign instead makes the standard parser report the invalid digit for us.
+fn parse_number(
+    text: &str,
+    radix: u32,
+) -> Result<usize, std::num::ParseIntError> {
+    if text.starts_with('+') {
+        usize::from_str_radix("+", radix)
+    } else {
+        usize::from_str_radix(text, radix)
+    }
+}
+
 fn find_crlf<T>(message: T) -> Option<usize>
 where
     T: AsRef<[u8]>,
